@@ -389,11 +389,15 @@ pub struct FbCase {
     pub chain: bool,
     /// timeout of each dispatch in ms (0 = non-blocking)
     pub timeout_ms: u8,
+    /// this many more idle callbacks (0, or around and above 1024) queued before the first dispatch, after the others:
+    /// all of them run in dispatch #0, in insertion order - the idle phase has no batch limit
+    #[serde(default)]
+    pub many_idles: u16,
 }
 
 fn fb_strategy() -> impl Strategy<Value = FbCase> {
-    (prop_oneof![2 => 1000u16..1030, 2 => 1030u16..1300, 1 => 2040u16..2060, 1 => 1u16..1000], 1u8..=3, any::<bool>(), prop_oneof![3 => Just(0u8), 1 => 1u8..4])
-        .prop_map(|(n, idles, chain, timeout_ms)| FbCase { n, idles, chain, timeout_ms })
+    (prop_oneof![2 => 1000u16..1030, 2 => 1030u16..1300, 1 => 2040u16..2060, 1 => 1u16..1000], 1u8..=3, any::<bool>(), prop_oneof![3 => Just(0u8), 1 => 1u8..4], prop_oneof![3 => Just(0u16), 1 => 1000u16..1100, 1 => 1100u16..2600])
+        .prop_map(|(n, idles, chain, timeout_ms, many_idles)| FbCase { n: if many_idles > 0 { n % 64 + 1 } else { n }, idles, chain, timeout_ms, many_idles })
 }
 
 fn run_full_batch(c: &FbCase) -> CaseOutcome {
@@ -440,6 +444,15 @@ fn run_full_batch(c: &FbCase) -> CaseOutcome {
             }
         });
     }
+    let many = c.many_idles.min(3000);
+    if many > 0 {
+        info.classes.push(if many > 1024 { "more_than_1024_idles_queued" } else { "many_idles_queued" });
+        info.nontrivial = info.nontrivial || many > 1024;
+    }
+    for k in 0..many {
+        let l = log.clone();
+        let _ = h.insert_idle(move |_| l.borrow_mut().push(L::Idle(1000 + k)));
+    }
     let v = |sig: &str, d: String| Some(Violation::new("C13.phase", d).with_sig(format!("C13.phase/{sig}")));
     let mut delivered = vec![0u32; n];
     let mut idle_at: Vec<(u16, usize)> = Vec::new();
@@ -463,6 +476,15 @@ fn run_full_batch(c: &FbCase) -> CaseOutcome {
                         fi + off
                     ),
                 );
+                break;
+            }
+        }
+        if many > 0 {
+            let got: Vec<u16> = lg.iter().filter_map(|e| if let L::Idle(k) = e { if *k >= 1000 { Some(*k - 1000) } else { None } } else { None }).collect();
+            let want: Vec<u16> = if d == 0 { (0..many).collect() } else { vec![] };
+            if got != want {
+                let first_bad = got.iter().zip(want.iter()).position(|(a, b)| a != b).unwrap_or(got.len().min(want.len()));
+                viol = Some(Violation::new("C13.once", format!("{many} idle callbacks were queued before dispatch #0; dispatch #{d} ran {} of them (expected {}), first difference at position {first_bad}: every queued idle runs once, in insertion order, in the first dispatch that returns Ok", got.len(), want.len())).with_sig("C13.once/many-idles"));
                 break;
             }
         }
